@@ -21,6 +21,9 @@ pub struct ApmTag {
 }
 
 impl ApmTag {
+    const BASE_SIZE: usize =
+        mem::size_of::<TagHeader>() + 8 * mem::size_of::<u16>() + mem::size_of::<u32>();
+
     /// Creates a new tag.
     #[allow(clippy::too_many_arguments)]
     #[must_use]
@@ -36,7 +39,7 @@ impl ApmTag {
         dseg_len: u16,
     ) -> Self {
         Self {
-            header: TagHeader::new(Self::ID, mem::size_of::<Self>() as u32),
+            header: TagHeader::new(Self::ID, Self::BASE_SIZE as u32),
             version,
             cseg,
             offset,
